@@ -39,8 +39,10 @@ LinearOK(c, w, tol) ==
   /\ \A i \in 1..Len(w) : (c.mono[i] = 1 => Leq(Zero, w[i], tol)) /\ (c.mono[i] = -1 => Leq(w[i], Zero, tol))
   /\ PO!MDomOK(c, w, tol) /\ PO!RDomOK(c, w, tol)
   /\ (c.norm = 1 => RLt(PO!L1(w), PO!NormEps) \/ RNear(PO!L1(w), One, tol))
-\* the norm assertion is strict (|norm - 1| < eps): at tol = 0 require exactly 1
-LinearOKExact(c, w) == LinearOK(c, w, Zero) /\ (c.norm = 1 => RLt(PO!L1(w), PO!NormEps) \/ PO!L1(w) = One)
+\* the norm assertion is strict (|norm - 1| < eps): at tol = 0 require exactly 1 - or exactly 0, the one vector
+\* that cannot be rescaled. (Norms strictly between 0 and NormEps are left undetermined: the projection's "too small
+\* to rescale" threshold is an implementation constant, and a small but non-zero norm does not meet the constraint.)
+LinearOKExact(c, w) == LinearOK(c, w, Zero) /\ (c.norm = 1 => PO!L1(w) = Zero \/ PO!L1(w) = One)
 
 CatOK(c, w, tol) == PO!PairsOK(c.pairs, w, tol) /\ PO!CatBoundsOK(c, w, tol)
 
